@@ -196,7 +196,7 @@ func TestC17Sweep(t *testing.T) {
 	for _, td := range tests {
 		for _, p := range td.Params {
 			for _, tr := range c17Allowed[td.Key] {
-				for _, n := range []int{20000, 1000003} {
+				for _, n := range []int{20000, 65537, 131075, 1000003} { // incl. one and three bits beyond a multiple of 2^16 (chunked implementations)
 					if n < minBitsFor(td, p) {
 						continue
 					}
